@@ -228,6 +228,12 @@ func reconfShortMain(args []string) int {
 	a := filepath.Join(root, "a")
 	_ = os.Mkdir(a, 0o755)
 	_ = os.WriteFile(filepath.Join(a, "x.json"), specBytes("va.com/cls", 1), 0o644)
+	// a second cache that had a working watcher before the shortage and is in manual mode when it starts
+	a2 := filepath.Join(root, "a2")
+	_ = os.Mkdir(a2, 0o755)
+	pre, _ := cdi.NewCache(cdi.WithSpecDirs(a2), cdi.WithAutoRefresh(true))
+	_ = pre.ListDevices()
+	_ = pre.Configure(cdi.WithAutoRefresh(false))
 	// exhaust descriptors: lower the limit to what is in use now
 	var old syscall.Rlimit
 	_ = syscall.Getrlimit(syscall.RLIMIT_NOFILE, &old)
@@ -271,6 +277,16 @@ func reconfShortMain(args []string) int {
 		if d := cache.GetDevice("va.com/cls=dev"); d == nil || envVal(d.ContainerEdits.Env, "V") != "3" {
 			report(Mismatch{What: "query-after-reconfiguration-during-shortage-is-stale", Want: "V=3", Got: fmt.Sprint(d)})
 		}
+		// auto-refresh switched on again during the shortage, on a cache that once had a watcher
+		_ = pre.Configure(cdi.WithAutoRefresh(true))
+		_ = os.WriteFile(filepath.Join(a2, "p.json"), specBytes("vp.com/cls", 1), 0o644)
+		if pre.GetDevice("vp.com/cls=dev") == nil {
+			report(Mismatch{What: "query-after-switching-auto-refresh-on-during-shortage-is-stale", Want: "vp.com/cls=dev", Got: fmt.Sprint(pre.ListDevices(), pre.GetErrors())})
+		}
+		_ = os.Remove(filepath.Join(a2, "p.json"))
+		if got := pre.ListDevices(); len(got) != 0 {
+			report(Mismatch{What: "query-after-switching-auto-refresh-on-during-shortage-is-stale", Want: "[]", Got: got})
+		}
 		// the shortage ends; a reconfiguration gets a working watcher and no stale errors
 		for _, f := range hold {
 			f.Close()
@@ -293,6 +309,7 @@ func reconfShortMain(args []string) int {
 			report(Mismatch{What: "no-auto-refresh-after-the-shortage"})
 		}
 		_ = cache.Configure(cdi.WithAutoRefresh(false))
+		_ = pre.Configure(cdi.WithAutoRefresh(false))
 	})
 	if pan != nil {
 		col.add(Mismatch{Props: []string{"C08", "C20"}, What: "panic", Got: fmt.Sprint(pan), Note: stack})
